@@ -36,6 +36,26 @@ type BackendConn struct {
 	recv    []WSMsg
 	closed  bool
 	closeCh chan struct{}
+	// mute connections (backend path /mute/...): the server end never reads, so it takes no part in the closing handshake
+	startRead  chan struct{}
+	observeFor time.Duration
+	peerClosed chan bool
+}
+
+// ObservePeerClose is for mute connections: the server end starts reading now and reports whether the agent side
+// closed the connection within the given time.
+func (b *BackendConn) ObservePeerClose(within time.Duration) bool {
+	if b.startRead == nil {
+		return false
+	}
+	b.observeFor = within
+	close(b.startRead)
+	select {
+	case ok := <-b.peerClosed:
+		return ok
+	case <-time.After(within + 5*time.Second):
+		return false
+	}
 }
 
 func (b *BackendConn) Received() []WSMsg {
@@ -168,6 +188,9 @@ func New(o Options) *Rig {
 		}
 		c.SetReadLimit(64 << 20)
 		bc := &BackendConn{Key: rq.URL.Path, Request: rq, conn: c, closeCh: make(chan struct{})}
+		if strings.HasPrefix(rq.URL.Path, "/mute/") {
+			bc.startRead, bc.peerClosed = make(chan struct{}), make(chan bool, 1)
+		}
 		r.mu.Lock()
 		r.conns[bc.Key] = bc
 		r.mu.Unlock()
@@ -177,6 +200,19 @@ func New(o Options) *Rig {
 		}
 		defer close(bc.closeCh)
 		defer c.Close()
+		if bc.startRead != nil {
+			<-bc.startRead
+			raw := c.UnderlyingConn()
+			raw.SetReadDeadline(time.Now().Add(bc.observeFor))
+			buf := make([]byte, 4096)
+			for {
+				if _, err := raw.Read(buf); err != nil {
+					ne, isNet := err.(interface{ Timeout() bool })
+					bc.peerClosed <- !(isNet && ne.Timeout())
+					return
+				}
+			}
+		}
 		for {
 			t, data, err := c.ReadMessage()
 			if err != nil {
